@@ -221,6 +221,114 @@ and `sleepOps` re-establishes it after its one-second jumps (part 4 above). -/
 theorem C18_onTime_init (cfg : Cfg) : OnTime (init cfg) := by
   intro t ht; cases ht
 
+/-! ### The removal is reported to every listener exactly once
+
+`nstep` (Model/Search.lean) keeps the timer task alive while `EventBus.emit(SearchRequestRemovedEvent)` hands the
+event from listener to listener: `NOp.resume rid` lets the listener that currently holds the report for request
+`rid` return, every `Op` may happen in between (`NOp.base`), `n` listeners are registered.  A *history* is any
+`List NOp` run from `ninit cfg n`. -/
+
+/-- **The task that reports a removal is never cancelled.** In every history no report is aborted (`aborted` =
+`CancelledError` inside `emit`: the suspended listener is torn down and the listeners after it are never called):
+`remove_request`, `Timer.cancel`, `Timer.reschedule` and `stop()` (`stopOps`) reach a Timer only through the
+registry, and the request whose removal is being reported is not in it any more (`del` before `emit`). -/
+theorem C18_report_never_aborted (cfg : Cfg) (n : Nat) (ops : List NOp)
+    (hw : NoWrap (nrun (ninit cfg n) ops).1.base) :
+    (∀ t rid tk i, NObs.aborted t rid tk i ∉ (nrun (ninit cfg n) ops).2) ∧
+    ∀ e ∈ (nrun (ninit cfg n) ops).1.reporting, e.cancelled = false := by
+  have h := reach_ninv cfg n ops hw
+  exact ⟨h.no_abort, fun e he => (h.rep_ok e he).1⟩
+
+/-- `cancelTarget` is exactly what `step` cancels among the pending tasks: the named task is marked cancelled,
+and a task that becomes cancelled in a step is the named one. -/
+theorem C18_cancel_target_exact (cfg : Cfg) (ops : List Op) (op : Op) (hw : NoWrap (run (init cfg) ops).1) :
+    (∀ id, cancelTarget (run (init cfg) ops).1 op = some id →
+      (∃ t ∈ (run (init cfg) ops).1.tasks, t.id = id ∧ t.cancelled = false) ∧
+      ∀ t ∈ (step (run (init cfg) ops).1 op).1.tasks, t.id = id → t.cancelled = true) ∧
+    ∀ t ∈ (step (run (init cfg) ops).1 op).1.tasks, t.cancelled = true →
+      (∃ t0 ∈ (run (init cfg) ops).1.tasks, t0.id = t.id ∧ t0.cancelled = true) ∨
+        cancelTarget (run (init cfg) ops).1 op = some t.id := by
+  have hi := reach_inv cfg ops hw
+  exact ⟨fun id hc => ⟨cancelTarget_task hi hc, cancelTarget_marks hi hc⟩, cancelTarget_complete _ op⟩
+
+/-- **At most once, only what happened, in order.** In every history: no listener is told twice of the same removal
+(the `(request, listener)` pairs of the `told` observations are pairwise different); a listener that is told exists
+(`i < n`), the removal it is told of was reported by a timer (`removed`, so `C18_timeout_exact_once` and
+`C18_superseded_never_fires` apply to it), and all listeners registered before it have been told before. -/
+theorem C18_removal_told_at_most_once (cfg : Cfg) (n : Nat) (ops : List NOp)
+    (hw : NoWrap (nrun (ninit cfg n) ops).1.base) :
+    ((nrun (ninit cfg n) ops).2.filterMap toldKey).Nodup ∧
+    ∀ t rid tk i, NObs.told t rid tk i ∈ (nrun (ninit cfg n) ops).2 →
+      i < n ∧ (∃ t0 dl tid, NObs.base (.removed t0 rid tk dl tid) ∈ (nrun (ninit cfg n) ops).2) ∧
+      ∀ j, j < i → ∃ t' tk', NObs.told t' rid tk' j ∈ (nrun (ninit cfg n) ops).2 := by
+  have h := reach_ninv cfg n ops hw
+  refine ⟨h.told_nodup, ?_⟩
+  intro t rid tk i hx
+  have hn : (nrun (ninit cfg n) ops).1.listeners = n := nrun_listeners _ _
+  exact ⟨by have := (h.told_ok t rid tk i hx).1; omega, h.told_src t rid tk i hx, h.in_order t rid tk i hx⟩
+
+/-- **Nothing is lost.** At every point of every history, for every removal reported so far and every registered
+listener: the listener has been told, or the report is still running, un-cancelled, and has not reached that
+listener yet. -/
+theorem C18_removal_never_lost (cfg : Cfg) (n : Nat) (ops : List NOp)
+    (hw : NoWrap (nrun (ninit cfg n) ops).1.base) :
+    ∀ t rid tk dl tid, NObs.base (.removed t rid tk dl tid) ∈ (nrun (ninit cfg n) ops).2 → ∀ i, i < n →
+      (∃ t' tk', NObs.told t' rid tk' i ∈ (nrun (ninit cfg n) ops).2) ∨
+      ∃ e ∈ (nrun (ninit cfg n) ops).1.reporting, e.rid = rid ∧ e.told ≤ i ∧ e.cancelled = false := by
+  have h := reach_ninv cfg n ops hw
+  intro t rid tk dl tid hx i hi
+  have hn : (nrun (ninit cfg n) ops).1.listeners = n := nrun_listeners _ _
+  rcases h.complete t rid tk dl tid hx i (by omega) with h1 | ⟨e, he, h1, h2⟩
+  · exact .inl h1
+  · exact .inr ⟨e, he, h1, h2, (h.rep_ok e he).1⟩
+
+/-- **Exactly once.** Take any history and let every listener that is still suspended return (`drainOps`: the
+running reports are resumed to their end, nothing else happens).  Then no report is running any more and every
+registered listener has been told of every removal reported in the history exactly once. -/
+theorem C18_removal_told_each_listener_exactly_once (cfg : Cfg) (n : Nat) (ops : List NOp)
+    (hw : NoWrap (nrun (ninit cfg n) ops).1.base) :
+    let all := ops ++ drainOps (nrun (ninit cfg n) ops).1
+    (nrun (ninit cfg n) all).1.reporting = [] ∧
+    (nrun (ninit cfg n) all).1.base = (nrun (ninit cfg n) ops).1.base ∧
+    ∀ t rid tk dl tid, NObs.base (.removed t rid tk dl tid) ∈ (nrun (ninit cfg n) all).2 → ∀ i, i < n →
+      ((nrun (ninit cfg n) all).2.filterMap toldKey).count (rid, i) = 1 := by
+  intro all
+  have h := reach_ninv cfg n ops hw
+  have hst : (nrun (ninit cfg n) all).1 = { (nrun (ninit cfg n) ops).1 with reporting := [] } := by
+    show (nrun (ninit cfg n) (ops ++ _)).1 = _
+    rw [nrun_append]
+    exact drain_state h
+  have hw' : NoWrap (nrun (ninit cfg n) all).1.base := by rw [hst]; exact hw
+  have h' := reach_ninv cfg n all hw'
+  refine ⟨by rw [hst], by rw [hst], ?_⟩
+  intro t rid tk dl tid hx i hi
+  have hn : (nrun (ninit cfg n) all).1.listeners = n := nrun_listeners _ _
+  have hmem : (rid, i) ∈ (nrun (ninit cfg n) all).2.filterMap toldKey := by
+    rcases h'.complete t rid tk dl tid hx i (by omega) with ⟨t', tk', h1⟩ | ⟨e, he, _⟩
+    · exact List.mem_filterMap.2 ⟨_, h1, rfl⟩
+    · rw [hst] at he; cases he
+  have h1 := List.nodup_iff_count.1 h'.told_nodup (rid, i)
+  have h2 := List.count_pos_iff.2 hmem
+  omega
+
+/-- One step of a running, un-cancelled report in *any* state: the next listener is called, or — after the last
+one — `emit` returns and the report is over. -/
+theorem C18_report_progress (s : NState) (e : Emission)
+    (hf : s.reporting.find? (fun x => decide (x.rid = e.rid)) = some e) (hc : e.cancelled = false) :
+    (e.told < s.listeners → (nstep s (.resume e.rid)).2 = [.told s.base.now e.rid e.ticket e.told]) ∧
+    (¬ e.told < s.listeners → (nstep s (.resume e.rid)).2 = [.finished s.base.now e.rid e.ticket] ∧
+      ∀ x ∈ (nstep s (.resume e.rid)).1.reporting, x.rid ≠ e.rid) := by
+  constructor
+  · intro hlt
+    simp only [nstep, hf, hc]
+    simp [hlt]
+  · intro hge
+    simp only [nstep, hf, hc]
+    simp only [Bool.false_eq_true, if_false, hge]
+    refine ⟨by first | rfl | trivial, ?_⟩
+    intro x hx
+    simpa using (List.mem_filter.1 hx).2
+
 /-! ### Non-vacuity: the hypotheses are met by non-trivial reachable states -/
 
 def cfg0 : Cfg := { requestTimeout := 5, wishlistTimeout := -1, storeResults := true, initial := 1, items := 2 }
@@ -243,5 +351,23 @@ example : OnTime (step (run (init cfg0) [.search .network]).1 .settle).1 := by
   rw [h1] at hd; cases hd; exact Nat.le_of_lt h2
 example : (step (run (init cfg0) [.search .network]).1 .settle).1.tasks =
     [{ id := 0, rid := 1, ticket := 2, timeout := 5, deadline := some 5, cancelled := false }] := by decide
+
+/-- a history of the layered model: two searches time out with three listeners registered; the first report is
+resumed once, the user tries to remove both requests again (by now unknown: `KeyError`), searches again, then all
+listeners return -/
+def ndemo : List NOp :=
+  [.base (.search .network), .base (.search .user)] ++ (sleepOps 5).map .base ++
+  [.resume 1, .base (.remove 2), .base (.remove 3), .base (.search .room), .base .settle]
+
+example : NoWrap (nrun (ninit cfg0 3) ndemo).1.base := by unfold NoWrap; decide
+example : (nrun (ninit cfg0 3) ndemo).1.reporting =
+    [{ rid := 1, ticket := 2, tid := 0, told := 2, cancelled := false },
+     { rid := 2, ticket := 3, tid := 1, told := 1, cancelled := false }] := by decide
+example : (nrun (ninit cfg0 3) (ndemo ++ drainOps (nrun (ninit cfg0 3) ndemo).1)).2.filterMap toldKey =
+    [(1, 0), (2, 0), (1, 1), (1, 2), (2, 1), (2, 2)] := by decide
+/-- `stop()` with a timer pending: a derived op list over the same alphabet (so every theorem above covers it) -/
+example : stopOps (run (init cfg0) [.search .network, .settle]).1 = [.timerCancel 2, .serverClosing] := by decide
+example : (run (init cfg0) ([.search .network, .settle] ++ stopOps (run (init cfg0) [.search .network, .settle]).1 ++
+    sleepOps 9)).2 = [.sent 0 1 2] := by decide
 
 end AioslskVerif.C18
